@@ -44,7 +44,7 @@ struct Shared {
   Case c;
   PMutex *m = nullptr; PSpinLock *s = nullptr; PRWLock *rw = nullptr; PCondVariable *cv_ne = nullptr, *cv_nf = nullptr;
   std::deque<long> queue; long produced = 0, consumed_sum = 0, consumed_n = 0; size_t cap = 2;
-  std::atomic<long> tls_destroyed{0}; PUThreadKey *key = nullptr; std::vector<long> results; bool keyfree_round = false;
+  std::atomic<long> tls_destroyed{0}; PUThreadKey *key = nullptr; std::vector<long> results; bool keyfree_round = false, no_tls = false;
   long rec_counter = 0, rec_check = 0;         // plain, protected by the lock
   volatile pint word = 0; volatile psize pword = 0;
   vector<vector<long>> olds;                   // per thread returned values
@@ -211,8 +211,10 @@ struct Outcome { string verdict, klass; bool nontrivial = false; uint64_t fp = 0
 void thr_tls_free(ppointer p) { G->tls_destroyed++; free(p); }
 ppointer thr_body(ppointer arg) {
   long i = (long)arg; Shared &g = *G;
-  p_uthread_set_local(g.key, malloc(8));
-  if (i % 2) p_uthread_replace_local(g.key, malloc(8));     // +1 notifier call now, +1 at exit
+  if (!g.no_tls) {
+    p_uthread_set_local(g.key, malloc(8));
+    if (i % 2) p_uthread_replace_local(g.key, malloc(8));     // +1 notifier call now, +1 at exit
+  }
   g.results[(size_t)i] = 1000 + i;                             // plain store, read by main after join
   if (g.keyfree_round) { pthread_barrier_wait(&g.bar); /* main releases the key reference here */ pthread_barrier_wait(&g.bar); }
   if (i % 3 == 0) p_uthread_exit((pint)(i + 5));
@@ -223,14 +225,19 @@ Outcome run_threads_case(const Case &c) {
   auto fail = [&](const string &k, const string &m) { if (o.verdict.empty()) { o.verdict = m; o.klass = k; } };
   int rounds = std::max(2, c.N / 200);
   for (int r = 0; r < rounds && o.verdict.empty(); r++) {
-    int T = c.T; g.results.assign((size_t)T, 0); g.tls_destroyed = 0; g.key = p_uthread_local_new(thr_tls_free);
+    // native TLS keys are never given back (p_uthread_local_free keeps the native key by design) and a process has about 1000 of them:
+    // this harness process uses at most 400 PUThreadKeys over its life, later rounds run without TLS
+    static int keys_used = 0;
+    bool with_tls = keys_used < 400; if (with_tls) keys_used++; else vl::stats().count("thr_rounds_without_tls_native_key_budget_spent");
+    g.no_tls = !with_tls;
+    int T = c.T; g.results.assign((size_t)T, 0); g.tls_destroyed = 0; g.key = with_tls ? p_uthread_local_new(thr_tls_free) : NULL;
     std::vector<PUThread *> hs;
     // every other round: the key REFERENCE is released while the threads are alive and hold values ("doesn't remove the TLS key
     // itself"): the values must still be destroyed exactly once when their threads exit
     g.keyfree_round = (r % 2) == 1;
     if (g.keyfree_round) pthread_barrier_init(&g.bar, NULL, (unsigned)T + 1);
     for (long i = 0; i < T; i++) hs.push_back(p_uthread_create(thr_body, (ppointer)i, TRUE, i % 2 ? "rt-thread" : NULL));
-    if (g.keyfree_round) { pthread_barrier_wait(&g.bar); p_uthread_local_free(g.key); g.key = NULL; pthread_barrier_wait(&g.bar); }
+    if (g.keyfree_round) { pthread_barrier_wait(&g.bar); if (g.key) p_uthread_local_free(g.key); g.key = NULL; pthread_barrier_wait(&g.bar); }
     long expect_destroy = 0;
     for (long i = 0; i < T; i++) {
       if (!hs[(size_t)i]) { fail("create", "p_uthread_create failed"); continue; }
@@ -240,7 +247,7 @@ Outcome run_threads_case(const Case &c) {
       if (code != want) fail("join-code", "join returned " + std::to_string(code) + " expected " + std::to_string(want));
       if (g.results[(size_t)i] != 1000 + i) fail("join-visibility", "value written by the thread not visible after join");
       p_uthread_unref(hs[(size_t)i]);
-      expect_destroy += (i % 2) ? 2 : 1;
+      if (!g.no_tls) expect_destroy += (i % 2) ? 2 : 1;
     }
     if (g.tls_destroyed != expect_destroy) fail("tls-notifier", string(g.keyfree_round ? "[key reference released while the threads were alive] " : "") + "TLS notifier ran " + std::to_string(g.tls_destroyed.load()) + " times, expected " + std::to_string(expect_destroy));
     if (g.key) p_uthread_local_free(g.key);
